@@ -417,6 +417,11 @@ func consumeStreamsBlockedFrame(b []byte) (typ streamType, max int64, n int) {
 		return 0, 0, -1
 	}
 	n += nn
+	if max > maxStreamsLimit {
+		// "This value cannot exceed 2^60 [...]."
+		// https://www.rfc-editor.org/rfc/rfc9000#section-19.14
+		return 0, 0, -1
+	}
 	return typ, max, n
 }
 
